@@ -1,5 +1,5 @@
 \* replayed exhaustively: one file x 0..2 items
 CONSTANTS MaxFiles = 1 MaxItems = 2 Starts = {300} ByteLens = {0, 2} EntryAddrs = {4660}
-  CpuSegGran <- CSG_Small Forms <- Forms_Both Filters <- F_Small Creators <- Cr_One
+  CpuSegGran <- CSG_Small Forms <- Forms_Both Filters <- F_Small Creators <- Cr_One Quiets <- Q_Both Dev <- D_None
 SPECIFICATION CoverSpec
 CHECK_DEADLOCK FALSE
